@@ -29,6 +29,11 @@ func c15StopSets() []c15Stops {
 		{{Offset: 0.125, Color: c(1, 2, 3, 4)}, {Offset: 0.25, Color: c(1, 2, 3, 4)}, {Offset: 0.5, Color: c(0xfe, 0, 0x7f, 0xff)}, {Offset: 0.625, Color: c(0, 0xff, 0, 0xff)}},
 		{{Offset: 0, Color: c(0xff, 0xff, 0, 0xff)}, {Offset: 0.0078125, Color: c(0, 0, 0, 0xff)}, {Offset: 1, Color: c(0x33, 0x33, 0x33, 0x33)}},
 	}
+	sets = append(sets,
+		c15Stops{{Offset: 0.5, Color: c(0x40, 0x40, 0x40, 0x40)}, {Offset: 0.5009765625, Color: c(0, 0, 0, 0xff)}}, // two stops 2^-10 apart
+		c15Stops{{Offset: 0, Color: c(0, 0, 0, 0)}, {Offset: 0.125, Color: c(9, 9, 9, 9)}, {Offset: 0.25, Color: c(0, 0, 0, 0)}, {Offset: 0.375, Color: c(0xff, 0, 0, 0xff)},
+			{Offset: 0.5, Color: c(0, 0xff, 0, 0xff)}, {Offset: 0.625, Color: c(0, 0, 0xff, 0xff)}, {Offset: 0.75, Color: c(0x7f, 0x7f, 0x7f, 0x7f)}, {Offset: 1, Color: c(1, 1, 1, 1)}},
+	)
 	var big c15Stops
 	for i := 0; i < 58; i++ {
 		a := uint8(255 - 3*i)
@@ -58,6 +63,10 @@ var c15ExactMats = [][6]float32{
 	{0, 0.125, 0.5, 0.125, 0, -0.5},
 	{0.03125, 0.03125, 0, -0.03125, 0.03125, 0},
 	{1, 0, -1000, 0, 1, 1000},
+	{0.5, 0, -8.25, 0, -0.5, 8.25},
+	{0.015625, 0, 0, 0, 0.015625, 0},
+	{-0.25, 0.25, 3.5, 0.25, 0.25, -3.5},
+	{2, 0, -64, 0, 2, -64},
 }
 
 var c15GenMats = [][6]float32{
@@ -67,6 +76,10 @@ var c15GenMats = [][6]float32{
 	{-0.2, 0.3, 3.3, 0.1, 0.1, -7.7},
 	{1e-3, 2e-3, 0.5, 2e-3, -1e-3, 0.5},
 	{0.11, 0.13, -1.7, 0.17, -0.19, 2.3},
+	{0.9, 0, -20.1, 0, 0.9, -20.1},
+	{-0.031, 0, 1.3, 0, 0, 0},
+	{0, 0.027, -0.4, 0, 0, 0},
+	{0.05, 0.05, 0.05, -0.05, 0.05, 0.05},
 }
 
 type c15Case struct {
@@ -99,8 +112,8 @@ func init() {
 	mc.Register(&mc.Check{
 		ID:    "C15",
 		Level: "exploration",
-		Rule: "engine P over (stops x spread x shape x matrix x map x pixel): 6 stop lists (2,2,3,4,3,58 stops; first>0, last<1, transparent, equal neighbours) x 4 spreads x 2 shapes; exact family: 6 dyadic matrices x 3 power-of-two viewBox/rectangle maps x pixel sweeps landing exactly on integers, stop offsets, midpoints and +-1000 (compared at the discontinuities, exact equality at stops); " +
-			"generic family: 6 sheared/rotated matrices x 12 maps x a 33x33 pixel lattice incl. negative coordinates (pixels within 1e-9 of a discontinuity of the active spread skipped and counted). The paint is obtained as a user gets it: register writes + gradient colour + full-rectangle path on a real Renderer, src image taken from Rasterizer.Draw; At(x,y) and the GradientConfig accessors are compared with the reference; a subset is rendered with raster/vec into an RGBA64 image. " +
+		Rule: "engine P over (stops x spread x shape x matrix x map x pixel): 8 stop lists (2,2,3,4,3,2,8,58 stops; first>0, last<1, transparent, equal neighbours, stops 2^-10 apart) x 4 spreads x 2 shapes; exact family: 10 dyadic matrices x 3 power-of-two viewBox/rectangle maps x pixel sweeps landing exactly on integers, stop offsets, midpoints and +-1000 (compared at the discontinuities, exact equality at stops); " +
+			"generic family: 10 sheared/rotated matrices x 12 maps x a 33x33 (thorough 129x129) pixel lattice incl. negative coordinates (pixels within 1e-9 of a discontinuity of the active spread skipped and counted). The paint is obtained as a user gets it: register writes + gradient colour + full-rectangle path on a real Renderer, src image taken from Rasterizer.Draw; At(x,y) and the GradientConfig accessors are compared with the reference; a subset is rendered with raster/vec into an RGBA64 image. " +
 			"distinct = hash of (spread-mapped region, exactness, shape); non-trivial = pixel whose raw offset lies outside [0,1] or exactly on a stop",
 		Assumptions: []string{"|At - v| <= 1 of 65535 per channel (truncation vs rounding is not the property's subject)", "accessor matrix compared within 2^-40 (exact family) / 2^-21 (generic family: the renderer's scale is a float32) relative to the magnitude of the terms"},
 		Units:       func(tier string) int { return nset * 4 * 2 * 2 },
@@ -248,6 +261,13 @@ func c15Check(w *mc.W, cs *c15Case) {
 		for i := -8; i <= 24; i++ {
 			pxs = append(pxs, i*3-2)
 			pys = append(pys, i*5+1)
+		}
+		if w.Thorough {
+			pxs, pys = pxs[:0], pys[:0]
+			for i := -32; i <= 96; i++ {
+				pxs = append(pxs, i)
+				pys = append(pys, i*2-7)
+			}
 		}
 	}
 	img := p.Img
